@@ -32,7 +32,7 @@ ASSUMPTIONS = [
     "a tag body whose fill tags all vanish at run time (all conditional) is the implicit default fill, as resolve_fills documents; 12% of the generated fill bodies have no unconditional fill",
     "slot names given through a variable ({% slot nK %}) are with-bound literals or iterate over the characters of a literal",
 ]
-BOUNDS = {"quick": {"programs": 6400}, "thorough": {"programs": 60000}}
+BOUNDS = {"quick": {"programs": 6400}, "thorough": {"programs": 200000}}
 
 CFG = {"errors": True}
 
@@ -257,7 +257,7 @@ def render_cases(draw):
 def plan(tier, seed, scale=1.0):
     n = max(16, int(BOUNDS[tier]["programs"] * scale))
     specs = []
-    shards = 16 if tier == "quick" else 32
+    shards = 16 if tier == "quick" else 128
     for sh in range(shards):
         specs.append({"kind": "main", "n": n // shards, "seed": derive_seed(seed, "c01", sh), "shrink": True})
     for sh in range(4):
